@@ -30,6 +30,7 @@ DECIDED = [
     "PROV-8 _add_id keeps a valid id (str(uuid.UUID(text))), replaces a missing or malformed one by a fresh uuid4 and always appends an id",
     "VER-2 _convert stamps the root with FORMAT_VERSION on every path and runs the whole pipeline",
     "DICT-1 the JSON/YAML front ends create one element per key; no guard depends on the content of an entry",
+    "PARSE-1 the string and the file front end parse with the same blank-text removing parser",
     "MAP-1 sibling names are counted in separate maps for Sections and Properties; the Property map is reset per Section",
     "SRC-1 the converter opens its source read-only and writes only to the filename given to write_to_file, after rendering",
 ]
@@ -253,6 +254,23 @@ def run(prog, rep):
                               "%s filters entries with `%s`, which depends on more than the key %s: entries with falsy content "
                               "(0, 0.0, false, '') are dropped without log" % (name, unparse(n.test)[:60], kv), where(f, n),
                               witness="JSON/YAML source with a value 0 or false")
+
+    # --------------------------------------------------------------- PARSE-1
+    rep.rule("PARSE-1", "_parse_xml: every lxml parse call (ET.parse / ET.fromstring / ET.XML) is given the parser built with "
+                        "remove_blank_text=True; the string and the file branch read the source the same way (the value folding of "
+                        "_handle_properties tests `value.text` before stripping, so whitespace-only text must not reach it)")
+    px0 = vc.lookup_method("_parse_xml")
+    rep.saw_function(px0)
+    pxx = Expander(px0, inline=prog)
+    pcalls = [c for h in private_closure(px0) for c in calls_in(h.node) if call_name(c) in ("ET.parse", "ET.fromstring", "ET.XML")]
+    rep.floor("PARSE-1", len(pcalls), 2, "lxml parse calls in _parse_xml")
+    for c in pcalls:
+        parser = c.args[1] if len(c.args) > 1 else kw(c, "parser", None)
+        t = pxx.text(parser) if parser is not None else "<default parser>"
+        good = parser is not None and re.match(r"^ET\.XMLParser\((.*)\)$", t) and "remove_blank_text=True" in t
+        rep.check(bool(good), "PARSE-1", "%s uses the blank-text removing parser" % call_name(c), t,
+                  "%s is called with %s: whitespace-only text of pretty-printed files reaches the value folding" % (call_name(c), t), where(px0, c),
+                  witness="a pretty printed 1.0 file with an attribute-only <value> after a <value> with text converts to '[1,,3]'")
 
     # ----------------------------------------------------------------- MAP-1
     rep.rule("MAP-1", "_replace_same_name_entities passes different map objects to _change_entity_name for Section names and for "
